@@ -47,7 +47,7 @@ WEIGHTS = {
 
 
 def n_cases(tier):
-    return 1500 if tier == 'quick' else 3000
+    return 1500 if tier == 'quick' else 9000
 
 
 def make_case(seed, index, tier):
